@@ -797,6 +797,8 @@ C02_Responsible ==
     (queue # <<>> /\ closed = 0 /\ Async) =>
         \/ running = 1
         \/ \E p \in Procs : pc[p] \in {"s.recheck", "s.recas", "w.cas"}
+        \* a sender whose transport call failed has released the role and is about to close the channel
+        \/ \E p \in Procs : pc[p] = "c.cas" /\ carg[p] = "werr"
 
 Quiesced == \A p \in Procs : pc[p] \in {"done", "none", "r.blocked", "v.wait", "msg.wait"}
 
